@@ -1,7 +1,7 @@
 """C17 — no operation escapes the table root.
 
-Theorems: DSV/Props/C17.lean over the path model DSV/Model/Path.lean (component-wise containment, lexical resolution).
-Correspondence: `_resolve_path` vs the model on an exhaustive path grammar over a symlink-free layout.
+Theorems: DSV/Props/C17.lean over the path model DSV/Model/Path.lean (component-wise containment, lexical resolution; S3 keys literal
+under the prefix). Correspondence: `_resolve_path`, `_get_arrow_path` and `_get_s3_key` vs the model on exhaustive path grammars.
 Oracle: exhaustive path grammar × every storage / read entry point × {root reached directly, via a symlink} on a REAL temp
 filesystem with symlinks inside the root pointing inside and outside; a Python audit hook records every open / listdir /
 remove / rename / mkdir the interpreter performs, resolved with realpath: none may touch anything outside the canonical root;
@@ -226,7 +226,7 @@ def _escaping(rep, S, root_real, ep, p, via, outcome, val):
                 f"yet the call succeeded ({str(val)[:50]!r}) instead of being rejected", {"kind": "path", "entry_point": ep, "path": p, "root_via": via})
 
 
-def _s3_keys(ctx, rep):
+def _s3_keys(ctx, rep, model_ok=False):
     """S3 backend: two tables share a bucket; every request the REAL backend makes for table 'wh/orders' must name a key (or list
     prefix) under 'wh/orders/', nothing outside may change, no outside content may be returned — for an exhaustive grammar of
     table-relative spellings"""
@@ -243,6 +243,16 @@ def _s3_keys(ctx, rep):
             rel = "/".join(combo)
             paths += [rel, "/" + rel]
     paths = list(dict.fromkeys(paths))
+    if model_ok:
+        from ..util import dec
+        for pref in ("wh/orders", ""):
+            be_ = fakes3.make_backend(pref, fake=fake)
+            reqs = [f"path.s3key {enc(pref)} {enc(p_)}" for p_ in paths]
+            for p_, m_ in zip(paths, driver.ask(reqs)):
+                rep.corr_cases += 1
+                impl_ = be_._get_s3_key(p_)
+                if dec(m_) != impl_:
+                    rep.diverge("path.s3key (_get_s3_key)", {"prefix": pref, "path": p_}, dec(m_), impl_)
     seen = []
     fake.hook = lambda phase, op, key, kw: seen.append((op, key)) if phase == "before" else None
     calls = {
@@ -544,7 +554,7 @@ def run(ctx, model_ok):
         _correspond(ctx, rep, base, model_ok)
         _oracle(ctx, rep, base)
         _stateful(ctx, rep, base)
-        _s3_keys(ctx, rep)
+        _s3_keys(ctx, rep, model_ok)
         rep.exhaustive = True
     finally:
         _AUDIT["on"] = False
